@@ -23,6 +23,9 @@ WIDTHS = list(range(1, 17)) + [31, 32, 33, 63, 64, 65]
 
 def gen(rng, ctx):
     big = ctx.tier == "thorough"
+    if ctx.gen_index == 3 and ctx.index < 2:
+        # widths whose indices need more than ten bits / two digits more than once (1025 inputs, 11 select lines)
+        return {"block": ["mux", "popcount"][ctx.index], "w": 1025, "seed": rng.getrandbits(32), "huge": True}
     blk = rng.choice(["adder", "adder", "mux", "mux", "popcount", "popcount", "half_adder", "full_adder", "clog2", "bin"])
     ws = WIDTHS + ([127, 128, 129] if big else [])
     # index-driven width so that every width is covered by some worker
@@ -192,8 +195,23 @@ def check(case, ctx):
         ctx.count("vectors", 1 << k)
     else:
         ctx.count("sampled_blocks")
+        if case.get("huge"):
+            ctx.count("width_1025")
         nv = 0
-        for a in vectors(rng, ins, 200 if ctx.tier == "thorough" else 40):
+
+        def targeted():
+            # mux: address the last inputs and the inputs whose index is a power of two, only that input set
+            if blk == "mux":
+                for idx in sorted({w - 1, w - 2, w // 2} | {1 << j for j in range(sel_w) if (1 << j) < w}):
+                    a_ = {x: False for x in ins}
+                    for j in range(sel_w):
+                        a_[f"sel_{j}"] = bool((idx >> j) & 1)
+                    a_[f"in_{idx}"] = True
+                    yield a_
+
+        import itertools
+
+        for a in itertools.chain(targeted(), vectors(rng, ins, (200 if ctx.tier == "thorough" else 40) if not case.get("huge") else 6)):
             nv += 1
             got = sim.simulate(net, a, topo)
             e = expect({x: int(v) for x, v in a.items()})
@@ -212,4 +230,6 @@ def gates(counters, table, tier):
     for k in ("block:adder", "block:mux", "block:popcount", "block:half_adder", "block:full_adder", "cmp:clog2", "cmp:bin_roundtrip", "exhaustive_blocks", "sampled_blocks"):
         if counters.get(k, 0) < 3:
             out.append(f"{k} seen {counters.get(k, 0)} times")
+    if counters.get("width_1025", 0) < 2:
+        out.append(f"width 1025 (mux and popcount) seen {counters.get('width_1025', 0)} times")
     return out
